@@ -224,6 +224,35 @@ Theorem C11_cut_in_block_is_error_concrete : forall (colvars : list N) (biases :
 Proof. exact cut_in_block_is_error_c. Qed.
 Print Assumptions C11_cut_in_block_is_error_concrete.
 
+(* Whole text states, concrete readers: the global block, any number of complete objects (valid_obj: an object
+   that the configured objects read completely whatever follows; proved below for the blocks Colvars writes),
+   then an object whose block is never closed: the load reports an error.  So a text state cut ANYWHERE strictly
+   inside the block of any object that a configured object claims is an error -- the premise "the reader
+   arrives there" of C11_cut_in_block_is_error is discharged. *)
+Theorem C11_text_state_cut_is_error : forall (colvars : list N) (biases : list bias) (gc : list tok) (objs : list (list tok)) (kw : N) (b : list tok),
+  bal 0 gc = true -> Forall (valid_obj colvars biases) objs ->
+  unclosed 1 b = true -> claimed colvars biases kw b ->
+  load_c colvars biases (TW KW_configuration :: TO :: gc ++ TC :: concat objs ++ TW kw :: TO :: b) = true.
+Proof. exact text_state_cut_is_error. Qed.
+Print Assumptions C11_text_state_cut_is_error.
+
+(* the block of a configured variable, as written (name, x, ... : any brace-balanced contents naming it) *)
+Theorem C11_text_variable_block_valid : forall (colvars : list N) (biases : list bias) (n : N) (conf : list tok),
+  In n colvars -> bal 0 conf = true -> lookup KW_name 0 conf = Some (TW n) -> cv_ok_c n conf = true ->
+  valid_obj colvars biases (TW KW_colvar :: TO :: conf ++ [TC]).
+Proof. exact cv_block_valid. Qed.
+Print Assumptions C11_text_variable_block_valid.
+
+(* the block of a configured bias, as written: configuration sub-block naming it, then its data: keys, arrays
+   of numbers and grid_parameters blocks in the order of its layout, then (kind 1) any number of hills *)
+Theorem C11_text_bias_block_valid : forall (colvars : list N) (biases : list bias) (b : bias) (kw : N) (conf data : list tok),
+  In b biases -> kw <> KW_colvar -> claims b (TW kw) = true ->
+  (forall b', In b' biases -> claims b' (TW kw) = true -> b_name b' = b_name b -> b' = b) ->
+  bal 0 conf = true -> lookup KW_name 0 conf = Some (TW (b_name b)) -> data_match b data ->
+  valid_obj colvars biases (TW kw :: TO :: TW KW_configuration :: TO :: conf ++ TC :: data ++ [TC]).
+Proof. exact bias_block_valid. Qed.
+Print Assumptions C11_text_bias_block_valid.
+
 (* ===================== (d) the binary state readers above the stream ===================== *)
 
 (* The framing of a record of an unformatted state: a list of fields (a string that must be a given
